@@ -52,6 +52,10 @@ def record_minres(sc):
     if sc["zero_col"] and c > 1:
         rhs[..., 1] = 0
         zero_cols = [1]
+    if sc.get("zero_all"):
+        # nothing to solve at all: the answer is zero - with the documented shape (shift dimension, batch dimensions)
+        rhs.zero_()
+        zero_cols = list(range(c))
     rhs = rhs.to(dtype)
     rhs_arg = rhs[..., 0] if cols == 0 else rhs
     sb = list(sh[1:]) if (sh != [-1] and len(sh) > 1) else []
@@ -128,6 +132,9 @@ def record_minres(sc):
         X = full(out)
         live = [k for k in range(c) if k not in zero_cols]
         fin["zero_ok"] = all(bool((X[..., k] == 0).all()) for k in zero_cols)
+        if not live:
+            return dict(kind="minres", cfg=dict(n=n, max_iter=1000, f32=dtype == torch.float32, lgtol=lg(sc["tol"]), lgk=0, lgfloor=0, pshift=False),
+                        runs=[], final=fin)
         rel = ((X - xstar).norm(dim=-2) / xstar.norm(dim=-2).clamp_min(1e-300))[..., live]
         fin["err"] = lg(rel.max())
         fin["erralt"] = lg(((X - xalt).norm(dim=-2) / xalt.norm(dim=-2).clamp_min(1e-300))[..., live].max())
@@ -167,6 +174,12 @@ def record_ciq(sc):
     elif cls in ("AddedDiag", "AddedDiagPrecond"):
         base = spd(n, batch, sc["family"], sc["kappa"], g) - 0.5 * torch.eye(n, dtype=torch.float64)
         dg = 0.5 + 0 * torch.rand(*batch, n, generator=g, dtype=torch.float64) if sc["seed"] % 2 else 0.3 + 0.4 * torch.rand(*batch, n, generator=g, dtype=torch.float64)
+        if sc.get("small_diag"):
+            # a dominant low-rank part and a small diagonal: the preconditioned spectrum differs strongly from the spectrum of K itself
+            # (rank 4 against a rank-2 preconditioner: the preconditioner is truncated)
+            V = torch.randn(*batch, n, 4, generator=g, dtype=torch.float64) * torch.tensor([7.0, 5.0, 3.0, 2.0], dtype=torch.float64)
+            base = V @ V.mT + 0.02 * (base + 0.5 * torch.eye(n, dtype=torch.float64))
+            dg = 0.02 + 0.02 * torch.rand(*batch, n, generator=g, dtype=torch.float64)
         op = AddedDiagLinearOperator(DenseLinearOperator(base.to(dtype)), DiagLinearOperator(dg.to(dtype)))
     elif cls == "Diag":
         op = DiagLinearOperator((1 + (sc["kappa"] - 1) * torch.rand(*batch, n, generator=g, dtype=torch.float64)).to(dtype))
@@ -185,7 +198,7 @@ def record_ciq(sc):
     rhs = torch.randn(*obatch, n, max(1, c), generator=g, dtype=torch.float64).to(dtype)
     lhs = torch.randn(*batch, 2, n, generator=g, dtype=torch.float64).to(dtype)
     r64, l64 = rhs.to(torch.float64), lhs.to(torch.float64)
-    fin = dict(shape_ok=True, finite=True, invsqrt=NA, sqrt=NA, twice=NA, left=NA, leftdiag=NA, noshift=NA, gram=NA, gramsqrt=NA)
+    fin = dict(shape_ok=True, finite=True, invsqrt=NA, sqrt=NA, twice=NA, left=NA, leftdiag=NA, noshift=NA, gram=NA, gramsqrt=NA, sample_ok=True)
     rel = lambda X, Y: lg((X.to(torch.float64) - Y).norm() / Y.norm().clamp_min(1e-300))
     try:
         with contextlib.ExitStack() as st, warnings.catch_warnings():
@@ -218,6 +231,15 @@ def record_ciq(sc):
                 solves, weights, _, _ = contour_integral_quad(op, eye, inverse=False, num_contour_quadrature=sc["Q"])
                 M2 = (solves * weights).sum(0).to(torch.float64)
                 fin["gramsqrt"] = rel(M2 @ M2.mT, K64)
+                # contour-integral sampling: shape (k, *batch, n), independent draws and members, covariance K (one-hot noise device of C18)
+                if n <= 8 and not precond and not extra:
+                    from .. import numeric
+
+                    st.enter_context(settings.ciq_samples(True))
+                    msg = numeric.sampling_covariance_check(lambda: op.zero_mean_mvn_samples(2), K64, 2, dtype, "lanczos", affine_base=4321 + sc["id"])
+                    fin["sample_ok"] = msg is None
+                    if msg:
+                        fin["sample_msg"] = msg[:200]
             # public entry point
             rarg = rhs[..., 0] if (c == 0 and not batch) else rhs
             once = op.sqrt_inv_matmul(rarg)
@@ -277,13 +299,32 @@ def scenarios(tier, seed, cases):
                     continue
                 out.append(dict(kind="minres", id=base + k, seed=seed * 15485863 + k, n=n, opb=[], rhs_batch=[], cols=1 + k % 2, shifts=sh, expect=[sh[0], n, 1 + k % 2],
                                 family=fams[k % 3], kappa=kap, precond="none", tol=[1e-4, 1e-6][k % 2], dt="f64", zero_col=False, neg_shift=False, shift_spread=True))
-    base = len(out) + 64
+    # (b'') an entirely zero right-hand side: zero answer in the documented shape (several shifts, batched operator, vector / matrix)
+    k0 = len(out) + 100
+    k = 0
+    for sh in ([-1], [3], [2, 2]):
+        for opb in ([], [2]):
+            if sh == [2, 2] and not opb:
+                continue
+            for cols in (0, 2):
+                if opb and cols == 0:
+                    continue
+                k += 1
+                S_ = 1 if sh == [-1] else sh[0]
+                nshift = 1 if sh == [-1] else int(math.prod(sh))
+                expect = ([S_] if nshift > 1 else []) + opb + [6] + ([] if cols == 0 else [cols])
+                out.append(dict(kind="minres", id=k0 + k, seed=seed * 7 + k, n=6, opb=opb, rhs_batch=opb, cols=cols, shifts=sh, expect=expect, family=fams[k % 3], kappa=10,
+                                precond="none", tol=1e-4, dt="f64", zero_col=False, neg_shift=False, zero_all=True))
+    base = len(out) + 200
     # (c) contour quadrature
     N = 48 if tier == "quick" else 300
     classes = ["Dense", "AddedDiag", "AddedDiagPrecond", "Diag", "ConstDiag", "Identity"]
     for i in range(N):
         h = lambda q: _h(i, q, 19)
         n = [1, 3, 8, 15, 20][h(1) % 5]
+        if i < (6 if tier == "quick" else 24):
+            out.append(dict(kind="ciq", id=base + 5000 + i, seed=seed * 613 + i, n=[8, 12, 16][i % 3], batch=[[], [2]][i % 2], cols=[1, 3][i % 2], cls="AddedDiagPrecond",
+                            rhs_extra=[], family=fams[0], kappa=10, dt="f64", tight=True, Q=25, small_diag=True))
         bt = [[], [2]][h(2) % 2]
         out.append(dict(kind="ciq", id=base + i, seed=seed * 1299709 + i, n=n, batch=bt, cols=[0, 1, 3][h(3) % 3], cls=classes[i % len(classes)],
                         rhs_extra=[[], [2], [3]][h(9) % 3] if (bt and classes[i % len(classes)] in ("Dense", "AddedDiag")) else [],
@@ -340,7 +381,7 @@ def run(tier, seed):
     c1 = json.loads(json.dumps(good)); c1["tid"] = 900001; c1["runs"][3]["res"] = -1000
     c2 = json.loads(json.dumps(good)); c2["tid"] = 900002; c2["final"]["err"] = -2000
     g2 = dict(kind="ciq", tid=900003, cfg=dict(n=4, f32=False, tight=True), runs=[],
-              final=dict(shape_ok=True, finite=True, invsqrt=-30000, sqrt=-30000, twice=-30000, left=-30000, leftdiag=-30000, noshift=-30000, gram=-30000, gramsqrt=-30000))
+              final=dict(shape_ok=True, finite=True, invsqrt=-30000, sqrt=-30000, twice=-30000, left=-30000, leftdiag=-30000, noshift=-30000, gram=-30000, gramsqrt=-30000, sample_ok=True))
     c3 = json.loads(json.dumps(g2)); c3["tid"] = 900004; c3["final"]["gram"] = -1000
     tr, verdicts = validate(traces + [good, c1, c2, g2, c3], tier)
     res.add_tlc("Trace_C11", tr)
